@@ -20,6 +20,15 @@ def classify(prop, sig):
         if "RefsFileExistsButCidObjMissing" in api and all(o in ("ok", "mismatch", "PidRefsDoesNotExist") for o in outs) \
                 and sig.get("locked") == [[], []] and not sig.get("residue") and sig.get("kind") == "state":
             return prop + "-R1"
+    if prop == "C13":
+        site = sig.get("site", "")
+        refs_site = ":refs/cids" in site or ":refs/pids" in site
+        if sig.get("mode") == "persistent" and refs_site and (sig.get("case", "").startswith("store") or
+                                                              sig.get("case", "").startswith("tag")) and \
+                sig.get("what") in ("after the failed call a pid reference file for the pid remains",
+                                    "after the failed call the pid is neither unbound nor bound as before",
+                                    "the pid cannot be stored again at once after the failed call"):
+            return "C13-P1" if ":refs/cids" in site else "C13-P2"
     return None
 
 
